@@ -30,7 +30,10 @@ type modSrc struct {
 	Dir    string            `json:"dir"`
 	Name   string            `json:"name,omitempty"`
 	Target bool              `json:"target"`
-	Files  map[string]string `json:"files"`
+	// TargetPaths (module-relative files) restricts the targets of a target module; the other files only
+	// enter the image as imports of targeted ones.
+	TargetPaths []string          `json:"target_paths,omitempty"`
+	Files       map[string]string `json:"files"`
 }
 
 type c12Case struct {
@@ -46,7 +49,7 @@ func buildImage(ctx context.Context, c *c12Case) (bufimage.Image, error) {
 	for _, m := range c.Modules {
 		ws.Modules = append(ws.Modules, &protogen.Module{Dir: m.Dir, Name: m.Name})
 		byModule[m.Dir] = m.Files
-		specs[m.Dir] = bufx.ModuleSpec{Target: m.Target}
+		specs[m.Dir] = bufx.ModuleSpec{Target: m.Target, TargetPaths: m.TargetPaths}
 	}
 	ms, err := bufx.ModuleSet(ctx, ws, byModule, specs, nil, nil)
 	if err != nil {
@@ -143,9 +146,124 @@ func addTypelessFile(t *rapid.T, ws *protogen.Workspace) string {
 	return "typeless-file"
 }
 
+// addSpanFile makes a package span target and import files: a new non-target dependency module gets a
+// file that declares the package of an existing file, and that file imports and uses it. Returns the
+// directory of the new module.
+func addSpanFile(t *rapid.T, ws *protogen.Workspace) string {
+	var normal []*protogen.File
+	for _, f := range ws.AllFiles() {
+		if !strings.HasPrefix(f.Path, "options/v1/") && len(f.Messages) > 0 && f.ID != "typeless1" {
+			normal = append(normal, f)
+		}
+	}
+	if len(normal) == 0 {
+		return ""
+	}
+	host := normal[rapid.IntRange(0, len(normal)-1).Draw(t, "span-host")]
+	dir := host.Path[:strings.LastIndex(host.Path, "/")]
+	dep := &protogen.File{ID: "spandep1", Syntax: protogen.Proto3, Package: host.Package, Path: dir + "/span_dep.proto"}
+	dep.Messages = []*protogen.Message{{
+		ID: "spandepmsg1", Name: "SpanDep", Comment: "SpanDep lives in a dependency module but in the same package.",
+		Fields: []*protogen.Field{{ID: "spandepfld1", Name: "note", Number: 1, Type: "string", TypeKind: "scalar"}},
+		Nested: []*protogen.Message{{ID: "spandepmsg2", Name: "Inner", Fields: []*protogen.Field{{ID: "spandepfld2", Name: "n", Number: 1, Type: "int32", TypeKind: "scalar"}}}},
+	}}
+	if rapid.Bool().Draw(t, "span-enum") {
+		dep.Enums = []*protogen.Enum{{ID: "spandepenum1", Name: "SpanKind", Values: []*protogen.EnumValue{{ID: "spandepval1", Name: "SPAN_KIND_UNSPECIFIED", Number: 0}, {ID: "spandepval2", Name: "SPAN_KIND_OTHER", Number: 1}}}}
+	}
+	ws.Modules = append(ws.Modules, &protogen.Module{Dir: "depmod", Name: "buf.build/acme/depmod", Files: []*protogen.File{dep}})
+	// the host uses it, so that it enters the image (as an import)
+	m := host.Messages[rapid.IntRange(0, len(host.Messages)-1).Draw(t, "span-user")]
+	used := map[int32]bool{}
+	for _, fld := range m.Fields {
+		used[fld.Number] = true
+	}
+	num := int32(30000)
+	for used[num] {
+		num++
+	}
+	fld := &protogen.Field{ID: "spanref1", Name: "span_dep_ref", Number: num, Type: "." + protogen.FullName(host.Package, "SpanDep"), TypeKind: "message"}
+	if host.Syntax == protogen.Proto2 {
+		fld.Label = protogen.LabelOptional
+	}
+	m.Fields = append(m.Fields, fld)
+	host.Imports = append(host.Imports, protogen.Import{Path: dep.Path})
+	return "depmod"
+}
+
+// addReexportFiles plants the `import public` shape: leaf files, a hub that publicly imports some of them,
+// unrelated files, and a user file that imports the hub (and the unrelated files) and reaches the leaves
+// only through the hub. Filtering by a user message drops the hub and the unrelated imports and has to
+// add the leaves as direct dependencies.
+func addReexportFiles(t *rapid.T, ws *protogen.Workspace) {
+	mod := ws.Modules[rapid.IntRange(0, len(ws.Modules)-1).Draw(t, "reexp-module")]
+	const pkg = "reexp.v1"
+	str := func(id, name string) *protogen.Field {
+		return &protogen.Field{ID: id, Name: name, Number: 1, Type: "string", TypeKind: "scalar"}
+	}
+	nLeaf := rapid.IntRange(2, 5).Draw(t, "reexp-leaves")
+	leafPath := func(i int) string { return fmt.Sprintf("reexp/v1/leaf_%c.proto", 'a'+i) }
+	for i := 0; i < nLeaf; i++ {
+		mod.Files = append(mod.Files, &protogen.File{ID: fmt.Sprintf("reexpleaf%d", i), Path: leafPath(i), Syntax: protogen.Proto3, Package: pkg,
+			Messages: []*protogen.Message{{ID: fmt.Sprintf("reexpleafmsg%d", i), Name: fmt.Sprintf("Leaf%d", i), Comment: fmt.Sprintf("Leaf%d message.", i), Fields: []*protogen.Field{str(fmt.Sprintf("reexpleaffld%d", i), "v")}}}})
+	}
+	hub := &protogen.File{ID: "reexphub", Path: "reexp/v1/hub.proto", Syntax: protogen.Proto3, Package: pkg,
+		Messages: []*protogen.Message{{ID: "reexphubmsg", Name: "Hub", Fields: []*protogen.Field{str("reexphubfld", "v")}}}}
+	public := map[int]bool{}
+	for _, i := range rapid.Permutation(seqInts(nLeaf)).Draw(t, "reexp-order") {
+		// at least the first two leaves are re-exported
+		if i < 2 || rapid.Bool().Draw(t, "reexp-public") {
+			hub.Imports = append(hub.Imports, protogen.Import{Path: leafPath(i), Public: true})
+			public[i] = true
+		}
+	}
+	mod.Files = append(mod.Files, hub)
+	nUnrel := rapid.IntRange(0, 2).Draw(t, "reexp-unrelated")
+	user := &protogen.File{ID: "reexpuser", Path: "reexp/v1/user.proto", Syntax: protogen.Proto3, Package: pkg}
+	imports := []protogen.Import{{Path: hub.Path}}
+	other := &protogen.Message{ID: "reexpothermsg", Name: "ReexpOther", Fields: []*protogen.Field{str("reexpotherfld", "v")}}
+	for k := 0; k < nUnrel; k++ {
+		path := fmt.Sprintf("reexp/v1/unrel_%d.proto", k)
+		mod.Files = append(mod.Files, &protogen.File{ID: fmt.Sprintf("reexpunrel%d", k), Path: path, Syntax: protogen.Proto3, Package: pkg,
+			Messages: []*protogen.Message{{ID: fmt.Sprintf("reexpunrelmsg%d", k), Name: fmt.Sprintf("Unrel%d", k), Fields: []*protogen.Field{str(fmt.Sprintf("reexpunrelfld%d", k), "v")}}}})
+		imports = append(imports, protogen.Import{Path: path})
+		other.Fields = append(other.Fields, &protogen.Field{ID: fmt.Sprintf("reexpotheruse%d", k), Name: fmt.Sprintf("u%d", k), Number: int32(k + 2), Type: fmt.Sprintf(".%s.Unrel%d", pkg, k), TypeKind: "message"})
+	}
+	user.Imports = rapid.Permutation(imports).Draw(t, "reexp-imports")
+	nUser := rapid.IntRange(1, 2).Draw(t, "reexp-users")
+	for m := 0; m < nUser; m++ {
+		msg := &protogen.Message{ID: fmt.Sprintf("reexpusermsg%d", m), Name: fmt.Sprintf("ReexpUser%d", m), Comment: "Uses leaves through the hub."}
+		num := int32(1)
+		for i := 0; i < nLeaf; i++ {
+			// the first user message uses exactly one leaf in 1 of 3 cases (fewer imports appended than dropped)
+			if public[i] && (num == 1 || rapid.IntRange(0, 2).Draw(t, "reexp-use") != 0) {
+				msg.Fields = append(msg.Fields, &protogen.Field{ID: fmt.Sprintf("reexpuse%d_%d", m, i), Name: fmt.Sprintf("l%d", i), Number: num, Type: fmt.Sprintf(".%s.Leaf%d", pkg, i), TypeKind: "message"})
+				num++
+			}
+		}
+		if rapid.IntRange(0, 4).Draw(t, "reexp-usehub") == 4 {
+			msg.Fields = append(msg.Fields, &protogen.Field{ID: fmt.Sprintf("reexpusehub%d", m), Name: "hub", Number: num, Type: "." + pkg + ".Hub", TypeKind: "message"})
+		}
+		user.Messages = append(user.Messages, msg)
+	}
+	user.Messages = append(user.Messages, other)
+	mod.Files = append(mod.Files, user)
+}
+
+func seqInts(n int) []int {
+	out := make([]int, n)
+	for i := range out {
+		out[i] = i
+	}
+	return out
+}
+
 // candidate name pools drawn from the image itself
 type pools struct {
 	msgs, enums, svcs, methods, exts, pkgs, rpcIO, mapVals, nested, imported, extendees, optionDefs []string
+	// packages by kind, and names that are not filterable at all (fields, oneofs, enum values, invented names)
+	targetPkgs, mixedPkgs, importPkgs, parentPkgs, unknown []string
+	withUnknown                                             bool // draw() may return names that do not exist
+	reexpUsers                                              []string // messages that reach their field types only through an `import public` hub
 }
 
 func uniqSorted(m map[string]bool) []string {
@@ -203,10 +321,55 @@ func makePools(u *universe) *pools {
 		}
 	}
 	p.rpcIO, p.mapVals, p.extendees = uniqSorted(rpcIO), uniqSorted(mapVals), uniqSorted(extendees)
+	for _, pkg := range u.pkgs {
+		switch u.pkgKind(pkg) {
+		case pkgTarget:
+			p.targetPkgs = append(p.targetPkgs, pkg)
+		case pkgMixed:
+			p.mixedPkgs = append(p.mixedPkgs, pkg)
+		case pkgAllImport:
+			p.importPkgs = append(p.importPkgs, pkg)
+		}
+	}
+	p.parentPkgs = u.parentOnlyPkgs()
+	for _, n := range p.msgs {
+		if strings.HasPrefix(n, "reexp.v1.ReexpUser") && !u.byName[n].isImport {
+			p.reexpUsers = append(p.reexpUsers, n)
+		}
+	}
+	// names a filter cannot name: regular fields, oneofs, enum values, and names that do not exist
+	unknown := map[string]bool{"no.such.pkg.v1": true, "NoSuchType": true}
+	for _, n := range u.order {
+		e := u.byName[n]
+		if e.isImport || e.mapEntry {
+			continue
+		}
+		unknown[n+"Missing"] = true
+		switch d := e.d.(type) {
+		case protoreflect.MessageDescriptor:
+			if d.Fields().Len() > 0 {
+				unknown[string(d.Fields().Get(0).FullName())] = true
+			}
+			if d.Oneofs().Len() > 0 {
+				unknown[string(d.Oneofs().Get(0).FullName())] = true
+			}
+		case protoreflect.EnumDescriptor:
+			unknown[string(d.Values().Get(0).FullName())] = true
+		}
+	}
+	for _, pkg := range u.pkgs {
+		unknown[pkg+".nosuch"] = true
+	}
+	for n := range unknown {
+		if u.byName[n] != nil || u.pkgKind(n) != "" {
+			delete(unknown, n)
+		}
+	}
+	p.unknown = uniqSorted(unknown)
 	return p
 }
 
-func (p *pools) draw(t *rapid.T, label string, excludeSide bool) string {
+func (p *pools) draw(t *rapid.T, label string, excludeSide bool) (string, bool) {
 	type cat struct {
 		w    int
 		list []string
@@ -216,9 +379,14 @@ func (p *pools) draw(t *rapid.T, label string, excludeSide bool) string {
 		{2, p.nested}, {1, p.imported}, {2, p.extendees}, {2, p.optionDefs},
 	}
 	if excludeSide {
-		cats = append(cats, cat{5, p.rpcIO}, cat{5, p.mapVals})
+		cats = append(cats, cat{5, p.rpcIO}, cat{5, p.mapVals}, cat{1, p.parentPkgs})
 	} else {
-		cats = append(cats, cat{1, p.rpcIO}, cat{1, p.mapVals})
+		// include side: packages of every kind (a mixed package is legal to include, an all-import or
+		// parent-only one only with WithAllowIncludeOfImportedType)
+		cats = append(cats, cat{1, p.rpcIO}, cat{1, p.mapVals}, cat{3, p.targetPkgs}, cat{8, p.mixedPkgs}, cat{3, p.importPkgs}, cat{3, p.parentPkgs})
+	}
+	if p.withUnknown {
+		cats = append(cats, cat{4, p.unknown})
 	}
 	total := 0
 	for _, c := range cats {
@@ -227,7 +395,7 @@ func (p *pools) draw(t *rapid.T, label string, excludeSide bool) string {
 		}
 	}
 	if total == 0 {
-		return ""
+		return "", false
 	}
 	k := rapid.IntRange(0, total-1).Draw(t, label+"-cat")
 	for _, c := range cats {
@@ -235,11 +403,11 @@ func (p *pools) draw(t *rapid.T, label string, excludeSide bool) string {
 			continue
 		}
 		if k < c.w {
-			return c.list[rapid.IntRange(0, len(c.list)-1).Draw(t, label)]
+			return c.list[rapid.IntRange(0, len(c.list)-1).Draw(t, label)], true
 		}
 		k -= c.w
 	}
-	return ""
+	return "", false
 }
 
 // genFilter draws a filter over existing names. allowConflict keeps included names that require an excluded one.
@@ -249,18 +417,22 @@ func genFilter(t *rapid.T, u *universe) (filterSpec, bool) {
 		ExcludeCustomOptions:   pct(t, "no-custom-options", 30),
 		ExcludeKnownExtensions: pct(t, "no-known-extensions", 30),
 		MutateInPlace:          pct(t, "in-place", 40),
-		AllowImported:          pct(t, "allow-imported", 40),
+		AllowImported:          rapid.Bool().Draw(t, "allow-imported"),
 	}
 	// rapid's integer generators favour small values; the order below gives roughly 35/30/35 after
 	// includes that would be a documented error have been dropped
 	mode := []int{70, 50, 0, 70, 50}[rapid.IntRange(0, 4).Draw(t, "mode")] // <40 exclude-only, 40-64 include-only, >=65 mixed
 	n := rapid.IntRange(1, 5).Draw(t, "names")
 	allowConflict := pct(t, "allow-conflict", 4)
+	// in ~1 of 5 cases names that the reference rejects are kept (imported names / import-only or file-less
+	// packages without WithAllowIncludeOfImportedType, names that do not exist): the filter must then fail
+	keepRejected := rapid.IntRange(0, 4).Draw(t, "keep-rejected") == 4
+	p.withUnknown = keepRejected
 	inc, exc := map[string]bool{}, map[string]bool{}
 	for i := 0; i < n; i++ {
 		toExclude := mode < 40 || (mode >= 65 && (i == 0 || (i > 1 && rapid.Bool().Draw(t, "side"))))
-		name := p.draw(t, "name", toExclude)
-		if name == "" {
+		name, ok := p.draw(t, "name", toExclude)
+		if !ok {
 			continue
 		}
 		if toExclude {
@@ -271,31 +443,29 @@ func genFilter(t *rapid.T, u *universe) (filterSpec, bool) {
 			inc[name] = true
 		}
 	}
+	// a message that needs files it only reaches through a public-import hub: include it more often
+	if mode >= 40 && len(p.reexpUsers) > 0 && rapid.Bool().Draw(t, "reexp-user") {
+		if name := p.reexpUsers[rapid.IntRange(0, len(p.reexpUsers)-1).Draw(t, "reexp-user-name")]; !exc[name] {
+			inc[name] = true
+		}
+	}
+	// a package that spans target and import files is the interesting include: name it more often
+	if mode >= 40 && len(p.mixedPkgs) > 0 && rapid.IntRange(0, 2).Draw(t, "mixed-pkg") == 2 {
+		if name := p.mixedPkgs[rapid.IntRange(0, len(p.mixedPkgs)-1).Draw(t, "mixed-pkg-name")]; !exc[name] {
+			inc[name] = true
+		}
+	}
+	if !keepRejected {
+		for name := range exc {
+			if len(u.rejections(filterSpec{Exclude: []string{name}})) > 0 {
+				delete(exc, name)
+			}
+		}
+	}
 	f.Exclude = uniqSorted(exc)
 	x := u.expandExcluded(f.Exclude)
 	for name := range inc {
-		e := u.byName[name]
-		keep := true
-		if e != nil {
-			if e.isImport && !f.AllowImported {
-				keep = false // documented error: type declared in an imported file
-			}
-		} else {
-			onlyImported := true
-			for _, path := range u.pkgFiles[name] {
-				if !u.isImport[path] {
-					onlyImported = false
-				}
-			}
-			if onlyImported && !f.AllowImported {
-				keep = false
-			}
-			for _, other := range f.Exclude {
-				if other == name {
-					keep = false
-				}
-			}
-		}
+		keep := keepRejected || len(u.rejections(filterSpec{Include: []string{name}, AllowImported: f.AllowImported})) == 0
 		if keep && !allowConflict && len(u.conflicts([]string{name}, x)) > 0 {
 			keep = false
 		}
@@ -341,8 +511,10 @@ func classify(r *evid.Recorder, u *universe, f filterSpec, x map[string]bool) {
 	}
 	for _, n := range f.Exclude {
 		switch {
+		case u.byName[n] == nil && u.pkgKind(n) == "":
+			r.Class("exclude:unknown-name")
 		case u.byName[n] == nil:
-			r.Class("exclude:package")
+			r.Class("exclude:" + u.pkgKind(n))
 		default:
 			r.Class("exclude:" + u.byName[n].kind)
 			if in(p.rpcIO, n) {
@@ -361,10 +533,19 @@ func classify(r *evid.Recorder, u *universe, f filterSpec, x map[string]bool) {
 	}
 	for _, n := range f.Include {
 		switch {
+		case u.byName[n] == nil && u.pkgKind(n) == "":
+			r.Class("include:unknown-name")
 		case u.byName[n] == nil:
-			r.Class("include:package")
+			allow := ""
+			if f.AllowImported {
+				allow = ":allow-imported"
+			}
+			r.Class("include:" + u.pkgKind(n) + allow)
 		default:
 			r.Class("include:" + u.byName[n].kind)
+			if in(p.reexpUsers, n) {
+				r.Class("include:message-reaching-types-through-public-import-hub")
+			}
 			if u.byName[n].isImport {
 				r.Class("include:imported-type")
 			}
@@ -385,6 +566,12 @@ func classify(r *evid.Recorder, u *universe, f filterSpec, x map[string]bool) {
 	}
 	if typeless {
 		r.Class("image:has-typeless-file")
+	}
+	for _, pkg := range u.pkgs {
+		if u.pkgKind(pkg) == pkgMixed {
+			r.Class("image:has-package-with-target-and-import-files")
+			break
+		}
 	}
 	if anyImport {
 		r.Class("image:has-non-target-module-files")
@@ -409,14 +596,44 @@ func TestFilter(t *testing.T) {
 		if pct(t, "typeless", 40) {
 			genClasses = append(genClasses, addTypelessFile(t, ws))
 		}
+		if rapid.IntRange(0, 3).Draw(t, "reexport-files") == 3 {
+			addReexportFiles(t, ws)
+			genClasses = append(genClasses, "public-import-hub")
+		}
+		nGenerated := len(ws.Modules)
+		depDir := ""
+		if rapid.IntRange(0, 2).Draw(t, "span-file") == 2 {
+			if depDir = addSpanFile(t, ws); depDir != "" {
+				genClasses = append(genClasses, "package-spans-dependency-module")
+			}
+		}
 		rw := ws.Render()
 		c := &c12Case{NoSourceInfo: pct(t, "no-source-info", 12)}
-		nonTarget := len(ws.Modules) >= 2 && pct(t, "non-target-modules", 35)
+		nonTarget := nGenerated >= 2 && pct(t, "non-target-modules", 35)
+		partial := rapid.IntRange(0, 3).Draw(t, "partial-targets") == 3
 		anyTarget := false
 		for i, m := range ws.Modules {
 			ms := modSrc{Dir: m.Dir, Name: m.Name, Target: true, Files: rw.ByModule[m.Dir]}
-			if nonTarget && !(i == len(ws.Modules)-1 && !anyTarget) && rapid.Bool().Draw(t, "mod-non-target") {
+			switch {
+			case m.Dir == depDir:
 				ms.Target = false
+			case nonTarget && !(i == nGenerated-1 && !anyTarget) && rapid.Bool().Draw(t, "mod-non-target"):
+				ms.Target = false
+			case partial && len(m.Files) >= 2:
+				// only some files of the module are targets; the rest can only enter the image as imports
+				for _, f := range m.Files {
+					if rapid.Bool().Draw(t, "file-target") {
+						ms.TargetPaths = append(ms.TargetPaths, f.Path)
+					}
+				}
+				if len(ms.TargetPaths) == len(m.Files) {
+					ms.TargetPaths = nil
+				} else if len(ms.TargetPaths) == 0 {
+					ms.TargetPaths = []string{m.Files[len(m.Files)-1].Path}
+				}
+				if ms.TargetPaths != nil {
+					genClasses = append(genClasses, "module-partially-targeted")
+				}
 			}
 			anyTarget = anyTarget || ms.Target
 			c.Modules = append(c.Modules, ms)
